@@ -1073,7 +1073,7 @@ class Exec:
         if isinstance(e, (ast.ListComp, ast.SetComp, ast.GeneratorExp)):
             return self.comprehension(e)
         if isinstance(e, ast.DictComp):
-            raise OutOfSubset("dict comprehension")
+            return self.dict_comprehension(e)
         if isinstance(e, ast.Call):
             return self.call(e)
         if isinstance(e, ast.IfExp):
@@ -1210,6 +1210,36 @@ class Exec:
                 if fam is not None:
                     return fam
         return c
+
+    def dict_comprehension(self, e):
+        """{k: value for k in <nodes>}: a finite map whose domain is the iterated collection."""
+        L = self.L
+        if len(e.generators) != 1 or e.generators[0].ifs or not isinstance(e.generators[0].target, ast.Name) \
+                or not (isinstance(e.key, ast.Name) and e.key.id == e.generators[0].target.id):
+            raise OutOfSubset("dict comprehension (shape not modelled)")
+        src = self.ev(e.generators[0].iter)
+        alts = self.comp_alts(src)
+        if len(alts) != 1 or len(alts[0][0]) != 1:
+            raise OutOfSubset("dict comprehension over a structured source")
+        (c,), guard, elt = alts[0]
+        env = {"__parent__": self.frames[-1].env}
+        outer = self.frames[-1].env
+        self.frames[-1].env = env
+        self.binders.append(c)
+        n0 = len(self.pc)
+        self.pc.append(guard)
+        try:
+            self.assign(e.generators[0].target, elt)
+            val = self.ev(e.value)
+        finally:
+            del self.pc[n0:]
+            self.binders.pop()
+            self.frames[-1].env = outer
+        if not isinstance(val, VSet):
+            raise OutOfSubset("dict comprehension with non-set values")
+        pv = val.pred
+        dom = lambda t: z3.substitute(guard, (c, t))
+        return VDict(dom, lambda t: VSet(lambda *xs: z3.substitute(pv(*xs), (c, t)), arity=val.arity, owned=False), owned=True)
 
     # ---------------------------------------------------------------- calls
     def call(self, e):
